@@ -59,8 +59,18 @@ def run(eng, rep, tier):
                     ast.unparse(c.func.value) == cont and c.args:
                 found = True
                 idx_in = ast.unparse(c.args[0])
-                guarded = any(isinstance(a, ast.If) and idx_it in ast.unparse(a.test) and idx_in in ast.unparse(a.test)
-                              and "!=" in ast.unparse(a.test) for a in _path_to(lp, c))
+                from .flow import inline_locals as _inl
+
+                def _differ_test(test):
+                    # `<index iterated> != <index inserted>` in any spelling, also kept in a local flag
+                    for e in _inl(comp.node, test):
+                        for x in ast.walk(e):
+                            if isinstance(x, ast.Compare) and len(x.ops) == 1 and isinstance(x.ops[0], (ast.NotEq, ast.IsNot)):
+                                sides = {ast.unparse(x.left), ast.unparse(x.comparators[0])}
+                                if sides == {idx_it, idx_in}:
+                                    return True
+                    return False
+                guarded = any(isinstance(a, ast.If) and _differ_test(a.test) for a in _path_to(lp, c))
                 same_text = idx_it == idx_in
                 inserts_new_key = _adds_new_key(prog, interp)
                 if inserts_new_key and not guarded:
